@@ -9,6 +9,7 @@ import Mathlib.Tactic.Linarith
 import Mathlib.Tactic.NormNum
 import Mathlib.Tactic.Positivity
 import PcVerif.Lemmas.PopOnLemmas
+import PcVerif.Lemmas.PopOnShape
 namespace PcVerif.Props.C05
 open PcVerif PcVerif.Scc
 
@@ -101,6 +102,22 @@ theorem doubled_control_counts_once (r : Reader) (w : String) (ws : List String)
       SccW.heldQ r' = SccW.heldQ (command (SccW.firstCopy r w) w (some w)) ∧
       r'.buf = (command (SccW.firstCopy r w) w (some w)).buf :=
   SccW.ctl_pair r w ws hc hq hl
+
+/-- **C05 (rows on consecutive screen rows become the lines of ONE caption, positioned at its first row).** a pop-on reader
+    between two captions (pop-on mode; the word before was a character word or nothing is remembered) reads the words of a
+    caption as the writer lays it out — `94ae 94ae 9420 9420`, rows `16 − n … 15` top to bottom, each with its column-0
+    preamble twice and its characters two per word, `942c 942c 942f 942f`; 1–15 non-empty rows of basic characters — and
+    whatever follows: the composed caption stands at the end of the queue as one buffer whose instruction nodes are exactly
+    one text node per row holding that row's characters, a break node between consecutive rows, no style and no
+    repositioning node, every node at (row `16 − n`, column 0); the buffer being composed is fresh again, and at most two
+    older captions have left the queue (shown at `942c` and at `942f`).  Exact: preamble → position tracker → `add_chars`
+    through the real `word` / `command` / `interpret` functions (`Lemmas/PopOnShape.lean`) -/
+theorem written_caption_exact (l0 : List Char) (ls : List (List Char)) (rest : List String) (r : Reader) (hn : ls.length + 1 ≤ 15)
+    (hb : ∀ l ∈ l0 :: ls, l ≠ [] ∧ ∀ c ∈ l, SccW.Basic c) (hq : SccW.Quiet r.lastCmd) (ha : r.active = .pop) :
+    ∃ r', words r (SccW.captionWords (l0 :: ls) ++ rest) = words r' rest ∧ r'.lastCmd = "" ∧ r'.active = .pop ∧ r'.pop = {} ∧
+      ∃ c t, r'.queue = r.queue.tail.tail ++ [(c, t)] ∧
+        c.coll = SccW.bufNodes (16 - (ls.length + 1), 0) (l0 :: ls) ∧ c.last = none :=
+  SccW.caption_exact l0 ls rest r hn hb hq ha
 
 /-- non-vacuity: the fixed control words and the 15 row preambles the writer sends are such control codes -/
 example : SccW.Ctl "94ae" ∧ SccW.Ctl "9420" ∧ SccW.Ctl "942c" ∧ SccW.Ctl "942f" := SccW.ctl_fixed
